@@ -169,6 +169,21 @@ func (u *Unit) runBody(st *State, body []ast.Stmt) {
 				u.defs = append(u.defs, t.S)
 				g.Assumed["axiom "+n+" (definitional property of a ghost predicate): "+c.Text] = true
 			}
+			// raw SMT-LIB: `decl (declare-fun ...)` and `smt <closed formula>` (facts about ghost
+			// functions over sorts that have no Go type, e.g. whole backing arrays)
+			for _, c := range ab.clauses("decl") {
+				// the struct sorts a declaration mentions must be declared before it
+				for _, w := range strings.FieldsFunc(c.Text, func(r rune) bool { return r == '(' || r == ')' || r == ' ' }) {
+					if tn, ok := g.P.Pkg.Types.Scope().Lookup(w).(*types.TypeName); ok {
+						g.sortOf(tn.Type(), false)
+					}
+				}
+				g.Pre.add(c.Text)
+			}
+			for _, c := range ab.clauses("smt") {
+				u.defs = append(u.defs, c.Text)
+				g.Assumed["axiom "+n+" (assumed fact about a ghost function, raw SMT): "+c.Text] = true
+			}
 		}
 	}
 	// `assumes` clauses: facts the unit relies on that no caller is asked to establish (reported)
